@@ -312,10 +312,10 @@ func (e *Engine) applyContract(st *State, fr *Frame, fn *ssa.Function, c *Contra
 			s2 := s.fork()
 			s.assume(ct)
 			s2.assume(mkNot(ct))
-			if !s.infeasible() {
+			if !s.infeasible() && !e.unsatisfiable(s.hyps) {
 				next = append(next, s)
 			}
-			if !s2.infeasible() {
+			if !s2.infeasible() && !e.unsatisfiable(s2.hyps) {
 				next = append(next, s2)
 			}
 		}
@@ -323,6 +323,10 @@ func (e *Engine) applyContract(st *State, fr *Frame, fn *ssa.Function, c *Contra
 	}
 	for _, s := range states {
 		res := e.applyPost(s, pre, fr, fn, c, args, site)
+		if s.infeasible() {
+			// vacuity guard: a callee postcondition that is syntactically contradictory in a feasible state
+			e.errors = append(e.errors, fmt.Sprintf("%s: postcondition of %s is contradictory at this call site (contract error)", e.curFunc, rel))
+		}
 		outs = append(outs, callOutcome{st: s, result: res})
 	}
 	return outs
@@ -367,9 +371,48 @@ func (e *Engine) applyPost(st, pre *State, fr *Frame, fn *ssa.Function, c *Contr
 		results[i] = e.symbolicResult(st, rt, fmt.Sprintf("%s.r%d", tag, i), isFresh)
 	}
 	env.results = results
-	// ensures: definitional pointer results first
+	// ensures: definitions of pointer / slice / aggregate results first, then everything else
+	var conj []ast.Expr
+	var flat func(x ast.Expr)
+	flat = func(x ast.Expr) {
+		switch n := x.(type) {
+		case *ast.ParenExpr:
+			flat(n.X)
+			return
+		case *ast.BinaryExpr:
+			if n.Op.String() == "&&" {
+				flat(n.X)
+				flat(n.Y)
+				return
+			}
+		}
+		conj = append(conj, x)
+	}
 	for _, en := range c.Ensures {
-		e.assumeEnsures(st, env, en.Expr, results, names)
+		flat(en.Expr)
+	}
+	isResDef := func(x ast.Expr) bool {
+		if n, ok := x.(*ast.BinaryExpr); ok && n.Op.String() == "==" {
+			if id, ok := n.X.(*ast.Ident); ok {
+				if ri := resultIndex(id.Name, names); ri >= 0 {
+					switch results[ri].(type) {
+					case *PtrVal, *SliceVal, *AggVal:
+						return true
+					}
+				}
+			}
+		}
+		return false
+	}
+	for _, x := range conj {
+		if isResDef(x) {
+			e.assumeEnsures(st, env, x, results, names)
+		}
+	}
+	for _, x := range conj {
+		if !isResDef(x) {
+			e.assumeEnsures(st, env, x, results, names)
+		}
 	}
 	// type invariants of havoced objects and fresh results
 	// the callee re-establishes the invariants of the typed objects it was handed (objects at or below
@@ -445,6 +488,13 @@ func substValue(v Value, sub map[string]*Term) Value {
 			n.elems[i] = substValue(el, sub)
 		}
 		return n
+	case *SliceVal:
+		if x.reg == nil {
+			return x
+		}
+		n := *x
+		n.off, n.length, n.capacity = substitute(x.off, sub), substitute(x.length, sub), substitute(x.capacity, sub)
+		return &n
 	}
 	return v
 }
@@ -626,11 +676,11 @@ func (e *Engine) assumeEnsures(st *State, env *SpecEnv, x ast.Expr, results []Va
 			switch id.Name {
 			case "implies":
 				g := substitute(env.boolTerm(n.Args[0]), st.subst)
-				if (g.IsConst() && g.Val.Sign() != 0) || st.hypKeys[g.Key()] {
+				if knownTrue(st, g) {
 					e.assumeEnsures(st, env, n.Args[1], results, names)
 					return
 				}
-				if (g.IsConst() && g.Val.Sign() == 0) || st.hypKeys[mkNot(g).Key()] {
+				if knownFalse(st, g) {
 					return
 				}
 			case "errIs":
